@@ -17,7 +17,7 @@ use crate::with_spec;
 pub const RULE: &str = "stage header: one element header (leaf of each type, raw id, master) declaring size S ∈ {0, M-1, M, M+1, 2M, 2^21, 2^32, 4·10^9±1, 2^40, 2^56-2} ∪ log-uniform, encoded in every vint width that can hold it, \
 placed at root / inside a known-size master with or without room / inside an unknown-size master, followed by 0, 1 or min(S/2, 2^16) payload bytes; limit M ∈ {16, 4096, 2^20, 2^22} or the untouched default; initial capacity ∈ {16, 4096, default}; any tolerance subset. \
 The harness' counting global allocator (thread-local live/peak bytes) measures the whole parse incl. construction; items are dropped as they arrive. Oracle: no panic; S > M ⇒ rejected (InvalidTagSize, or an earlier documented check) with peak growth <= 2·cap + 4 KiB and no read request larger than the buffer; \
-S <= M with the payload missing ⇒ peak growth <= 3·max(S, cap) + 4 KiB. Stage stream: any input from the reader mix under limit M with no buffered masters ⇒ peak growth <= 3·max(M, cap) + 64 KiB. \
+S <= M with the payload missing ⇒ peak growth <= 3·max(S, cap) + 4 KiB. Stage long_stream: 150-600 elements of sizes up to the limit under unknown-size masters, capacities 16..1024 ⇒ the same bound over the whole parse (memory must not creep up). Stage stream: any input from the reader mix under limit M with no buffered masters ⇒ peak growth <= 3·max(M, cap) + 8 KiB. \
 Non-trivial: S > M in a width >= 2, or S <= M with fewer payload bytes present than declared; distinct by (stream, M, cap, tolerance).";
 
 pub const ASSUMPTIONS: &[&str] = &[
@@ -242,21 +242,84 @@ fn stage_stream(i: &Input, c: &mut Case) -> Result<(), String> {
     if let Some(p) = &r.panic {
         return Err(format!("panic: {}\n  input: {}\n  cfg: {}", p, describe_mixed(&m), cfg.render()));
     }
-    let bound = 3 * limit.max(capv) + 64 * 1024;
+    let slack: usize = std::env::var("EBV_C17_SLACK").ok().and_then(|x| x.parse().ok()).unwrap_or(8 * 1024);
+    let bound = 3 * limit.max(capv) + slack;
     if r.peak > bound {
         return Err(format!(
-            "parsing cost {} bytes of heap (largest single allocation {}) under size limit {} and capacity {} (bound 3·max(M, cap) + 64 KiB = {})\n  input: {}\n  cfg: {}",
+            "parsing cost {} bytes of heap (largest single allocation {}) under size limit {} and capacity {} (bound 3·max(M, cap) + 8 KiB = {})\n  input: {}\n  cfg: {}",
             r.peak, r.largest, limit, capv, bound, describe_mixed(&m), cfg.render()
         ));
     }
     Ok(())
 }
 
-pub const STAGES: &[Stage] = &[Stage { name: "header", f: stage_header }, Stage { name: "stream", f: stage_stream }];
+
+/// many elements within the limit, varying sizes: memory must not creep up over a long parse
+fn stage_long(i: &Input, c: &mut Case) -> Result<(), String> {
+    if !allocstat::active() {
+        return Err("harness: counting allocator not installed".into());
+    }
+    let mut t = Tape::new(i.tape());
+    let spec = std::rc::Rc::new(SpecTable::new(vec![
+        Elem { id: 0x81, ty: Ty::Master, path: vec![], name: "R".into() },
+        Elem { id: 0x82, ty: Ty::Master, path: vec![PathPart::Id(0x81)], name: "M".into() },
+        Elem { id: 0x83, ty: Ty::B, path: vec![PathPart::Id(0x81), PathPart::Id(0x82)], name: "B".into() },
+        Elem { id: 0x84, ty: Ty::S, path: vec![PathPart::Id(0x81), PathPart::Id(0x82)], name: "S".into() },
+        Elem { id: 0x85, ty: Ty::U, path: vec![PathPart::Id(0x81), PathPart::Id(0x82)], name: "U".into() },
+    ]));
+    crate::dynspec::set_current(spec);
+    let limit = *t.pick(&[64usize, 300, 1000, 4000]);
+    let cap = *t.pick(&[16usize, 64, 256, 1024]);
+    let n = 150 + t.below(450);
+    let lo = *t.pick(&[1usize, limit / 4, limit / 2]);
+    let mut bytes = vec![0x81, 0xFF, 0x82, 0xFF];
+    let mut x = (t.raw() as u32) | 1;
+    for k in 0..n {
+        x ^= x << 13;
+        x ^= x >> 17;
+        x ^= x << 5;
+        let len = lo + (x as usize) % (limit - lo + 1);
+        let id = if k % 7 == 3 { 0x84u8 } else { 0x83 };
+        bytes.push(id);
+        bytes.extend_from_slice(&ref_vint(len as u64, size_min_width(len as u64)).unwrap());
+        bytes.extend(std::iter::repeat(0x41 + (k % 20) as u8).take(len));
+        if k % 11 == 0 {
+            bytes.extend_from_slice(&[0x85, 0x81, 0x07]);
+        }
+        if k % 50 == 49 {
+            // a new unknown-size M closes the previous one
+            bytes.extend_from_slice(&[0x82, 0xFF]);
+        }
+    }
+    let cfg = ReadCfg { capacity: Some(cap), max_size: MaxSize::Set(Some(limit)), ..ReadCfg::default() };
+    let r = measure::<crate::dynspec::DynTag>(&bytes, &cfg, true);
+    c.checks += 1;
+    c.nontrivial = true;
+    c.key(&(limit, cap, n, lo, x));
+    c.label_if(cap < limit, "capacity_below_limit");
+    c.sample_with(|| format!("{} elements of {}..={} bytes under unknown-size masters ({} bytes in all), limit {}, capacity {}: peak {} bytes", n, lo, limit, bytes.len(), limit, cap, r.peak));
+    if let Some(p) = &r.panic {
+        return Err(format!("panic: {}", p));
+    }
+    if r.err.is_some() || r.items < n {
+        return Err(format!("harness: long stream not read completely: {} items, error {:?}", r.items, r.err.as_ref().map(|e| e.short())));
+    }
+    let bound = 3 * limit.max(cap) + 8 * 1024;
+    if r.peak > bound {
+        return Err(format!(
+            "memory creeps up over a long parse: {} elements of {}..={} bytes (all within the limit {}) with capacity {} cost {} bytes of heap, largest single allocation {} (bound 3·max(M, cap) + 8 KiB = {})",
+            n, lo, limit, limit, cap, r.peak, r.largest, bound
+        ));
+    }
+    Ok(())
+}
+
+pub const STAGES: &[Stage] = &[Stage { name: "header", f: stage_header }, Stage { name: "stream", f: stage_stream }, Stage { name: "long_stream", f: stage_long }];
 
 pub fn run(rc: &mut RunCtx) {
     rc.run_pt(STAGES[0], rc.pick(80_000, 1_500_000), (96, 300));
     rc.run_pt(STAGES[1], rc.pick(80_000, 1_500_000), (96, 500));
+    rc.run_pt(STAGES[2], rc.pick(4_000, 60_000), (8, 8));
     for l in ["above_limit_wide_field", "within_limit_payload_missing", "limit_untouched", "inside_known_with_room", "inside_unknown"] {
         rc.require_label("header", l, 20_000);
     }
